@@ -223,3 +223,23 @@ def annotate_unit(stranded):
 
 
 UNITS += [annotate_unit(None), annotate_unit(True), annotate_unit(False)]
+
+
+# ------------------------------------------------------------------------------ a range query must not disturb later point queries (the
+# point lookups are memoised: a caller that edits a returned list edits the memo)
+def query_sequence(n=1):
+    src = ['fc = FeatureContainer()']
+    for i in range(n):
+        src.append('fc.addFeature("ctg", F[%d][0], F[%d][1], F[%d][2], "+" if F[%d][3] else "-")' % (i, i, i, i))
+    src += ['fc.sort()', 'first = fc.findFeaturesBetween("ctg", a, b, strand)', 'result = fc.findFeaturesAt("ctg", q, strand)',
+            'return result']
+    return Contract(
+        PROP, FF + '::FeatureContainer', name='history[range query, then point query at its start, %d features]' % n,
+        harness='\n'.join(src), params={'F': feats(n), 'a': 'int', 'b': 'int', 'q': 'int', 'strand': 'none'},
+        requires=['a <= b', 'q == a'],
+        setup=lambda eng: eng.ghost.clear(), ensures=HIST_SPEC, raises={},
+        bounded='%d features on one contig (symbolic coordinates/strands); a range query followed by a point query at its start' % n,
+        max_paths=40000)
+
+
+UNITS.append(query_sequence(1))
